@@ -131,6 +131,15 @@ func (e *gfP12) MulScalar(a *gfP12, b *gfP6, pool *bnPool) *gfP12 {
 }
 
 func (c *gfP12) Exp(a *gfP12, power *big.Int, pool *bnPool) *gfP12 {
+	if power.Sign() < 0 {
+		// a^(-k) = (a^-1)^k; the loop below reads the bits of a non-negative power.
+		inv := newGFp12(pool)
+		inv.Invert(a, pool)
+		c.Exp(inv, new(big.Int).Neg(power), pool)
+		inv.Put(pool)
+		return c
+	}
+
 	sum := newGFp12(pool)
 	sum.SetOne()
 	t := newGFp12(pool)
